@@ -107,9 +107,20 @@ pub fn arb_f64() -> BoxedStrategy<f64> {
     .boxed()
 }
 
-const COMMON_ATOMS: &[&str] = &[
+pub const COMMON_ATOMS: &[&str] = &[
     "ok", "error", "true", "false", "nil", "undefined", "normal", "shutdown", "infinity", "badarg", "badarith", "badmatch",
     "noproc", "timeout", "rex", "$gen_call", "Elixir.Enum", "__struct__",
+    // the wider vocabulary of OTP exit reasons, error classes, message tags and well-known names: any table of
+    // "interned" or specially treated atoms in the library is most likely drawn from these
+    "noconnection", "nocatch", "killed", "kill", "EXIT", "DOWN", "process", "port", "badfun", "badarity", "function_clause",
+    "case_clause", "if_clause", "try_clause", "undef", "badkey", "badmap", "badrecord", "system_limit", "timeout_value",
+    "noconnection", "nonode@nohost", "net_kernel", "global_name_server", "user", "init", "erlang", "self", "node", "throw",
+    "exit", "$gen_cast", "$gen_event", "$gen_notify", "$gen_sync_notify", "$gen_which_handlers", "$ancestors", "$initial_call",
+    "is_auth", "yes", "no", "noreply", "reply", "stop", "ignore", "continue", "hibernate", "call", "cast", "info", "apply", "user",
+    "monitor", "demonitor", "link", "unlink", "flush", "alias", "reply_demonitor", "priority", "nosuspend", "noconnect",
+    "badrpc", "nodedown", "nodeup", "Elixir.String", "Elixir.Kernel", "Elixir.ArgumentError", "Elixir.RuntimeError", "__exception__",
+    "message", "calendar", "Elixir.Calendar.ISO", "Elixir.MapSet", "Elixir.Range", "Elixir.Date", "Elixir.DateTime", "Etc/UTC", "UTC",
+    "first", "last", "step", "year", "month", "day", "hour", "minute", "second", "microsecond", "map", "key", "term", "value",
 ];
 
 fn sized_string(unit: &str, bytes: usize) -> String {
